@@ -1612,7 +1612,48 @@ func c04Literals(c *Ctx, pp, tag string) {
 				}
 			}
 		})
-		r.Ob("LITERALS", who+" builds a fresh "+spec.what+" on every evaluation", t.Pos(f.Pos()), fresh, "two evaluations of one literal never share storage")
+		// every container-tagged result is freshly built in this activation
+		kTag, _ := constInt(t.SSA[pAst].Const(map[string]string{"list": "List", "map": "Map"}[spec.what]).Value)
+		stale := ""
+		nRes := 0
+		judge := func(v ssa.Value) {
+			nRes++
+			if why := notFreshContainer(v); why != "" {
+				stale = why
+			}
+		}
+		allInstrs(f, func(in ssa.Instruction) {
+			switch x := in.(type) {
+			case *ssa.Return:
+				if pp == pRT && len(x.Results) == 3 {
+					if k, isC := constInt(x.Results[1]); isC && k == kTag {
+						judge(x.Results[0])
+					}
+				}
+			case *ssa.Store:
+				if pp != pRT2 {
+					return
+				}
+				fa, ok := x.Addr.(*ssa.FieldAddr)
+				if !ok || fa.Field != 1 {
+					return
+				}
+				if k, isC := constInt(x.Val); !isC || k != kTag {
+					return
+				}
+				for _, ref := range *fa.X.Referrers() {
+					if fv, ok := ref.(*ssa.FieldAddr); ok && fv.Field == 0 {
+						for _, r2 := range *fv.Referrers() {
+							if st, ok := r2.(*ssa.Store); ok {
+								judge(st.Val)
+							}
+						}
+					}
+				}
+			}
+		})
+		r.Ob("LITERALS", who+" builds a fresh "+spec.what+" on every evaluation", t.Pos(f.Pos()), fresh && nRes >= 1 && stale == "",
+			fmt.Sprintf("%d %s-tagged result(s), each built in this activation; %s — two evaluations of one literal never share storage (a cached literal would carry one run's writes into the next)", nRes, spec.what, stale))
 		if spec.what == "map" {
 			// the key must be a Go string (comma-ok) else error
 			okKey := false
@@ -1809,4 +1850,44 @@ func c04Alias(c *Ctx) {
 		r.Ob("ALIAS", "Stack.Get hands out the stored variable", t.Pos(get.Pos()), okGet, "reads see the object the writes changed")
 	}
 	_ = constant.MakeInt64
+}
+
+// notFreshContainer: "" when v is a list/map built in this activation (make, literal, append onto such), else why not.
+func notFreshContainer(v ssa.Value) string {
+	bad := ""
+	seen := map[ssa.Value]bool{}
+	var walk func(v ssa.Value)
+	walk = func(v ssa.Value) {
+		if v == nil || seen[v] || bad != "" {
+			return
+		}
+		seen[v] = true
+		switch x := v.(type) {
+		case *ssa.MakeInterface:
+			walk(x.X)
+		case *ssa.ChangeType:
+			walk(x.X)
+		case *ssa.Phi:
+			for _, e := range x.Edges {
+				walk(e)
+			}
+		case *ssa.Call:
+			if builtinName(x) == "append" {
+				walk(x.Call.Args[0])
+				return
+			}
+			bad = "result of " + path(x)
+		case *ssa.MakeSlice, *ssa.MakeMap:
+		case *ssa.Const:
+		case *ssa.Slice:
+			if al, ok := x.X.(*ssa.Alloc); ok && al.Heap {
+				return
+			}
+			bad = "sub-slice of " + path(x.X)
+		default:
+			bad = "value " + path(v) + " is not built here"
+		}
+	}
+	walk(v)
+	return bad
 }
